@@ -11,6 +11,9 @@ written from the property text):
   doc_resolve    mloda.steward resolve_feature (plugin_docs) - the second, documented subclass filter
   e2e            mloda.run_all on universes created in permuted class-creation orders: which generated group's
                  calculate_feature ran / which error, python type of the returned table
+  e2e_multi      several features per request (equal names with different group / context options, domain, framework) on
+                 groups whose match criteria read an option value; every request order; per feature the computing group
+                 and its result table
   e2e_links_framework  two sources on different frameworks + one link + consumer with a framework rule: python type of the result
 """
 from __future__ import annotations
@@ -38,6 +41,7 @@ ERRS = [
     ("No feature groups found for feature name", "noGroup"),
     ("Multiple feature groups found", "multipleGroups"),
     ("does not support compute framework", "featureFrameworkUnsupported"),
+    ("Cannot compare Domain with", "domainCompare"),
 ]
 
 
@@ -145,12 +149,19 @@ def build(u: Dict[str, Any], cf: Cfws, order: Optional[Sequence[int]] = None) ->
         # Engine.compute deep-copies the plan and a copied set of classes may iterate in another order.)
         names = sorted(features.get_all_names())
         F.log_event(ev="begin", group=cls.__name__, features=names)
-        return {nm: [1, 2] for nm in names}
+        return {nm: [cls.__name__, cls.__name__] for nm in names}
 
     for c in order:
         s = u["classes"][c]
         p = u["parents"][c]
         extra: Dict[str, Any] = {"calculate_feature": classmethod(calc)}
+        if any("opt" in k for k in u["classes"]):  # every class states its own criteria (an inherited override would leak)
+
+            def crit(cls: Any, feature_name: Any, options: Any, data_access_collection: Any = None, names: Any = tuple(s["names"]), want: Any = s.get("opt")) -> bool:
+                n = feature_name.name if hasattr(feature_name, "name") else str(feature_name)
+                return n in names and (want is None or options.get(want[0]) == want[1])
+
+            extra["match_feature_group_criteria"] = classmethod(crit)
         frameworks = None
         if s["rule"] == "any":
             extra["compute_framework_rule"] = classmethod(lambda cls: True)
@@ -204,11 +215,23 @@ def creation_orders(ctx: Ctx, parents: Sequence[Optional[int]], k: int) -> List[
     return outs
 
 
-def fg_json(u: Dict[str, Any], c: int, feature_name: str) -> Dict[str, Any]:
+def o_crit(u: Dict[str, Any], c: int, feature_name: str, opts: Optional[Dict[str, Any]] = None) -> bool:
+    """criteria of a generated group: its own names, and - when the class declares `opt` = [key, value] - the feature's
+    option `key` (group or context, Options.get reads both) must have that value"""
+    k = u["classes"][c]
+    if feature_name not in k["names"]:
+        return False
+    want = k.get("opt")
+    if want is None:
+        return True
+    return (opts or {}).get(want[0]) == want[1]
+
+
+def fg_json(u: Dict[str, Any], c: int, feature_name: str, opts: Optional[Dict[str, Any]] = None) -> Dict[str, Any]:
     rule = effective(u, c, "rule", "any")
     return {
         "id": c,
-        "crit": feature_name in u["classes"][c]["names"],
+        "crit": o_crit(u, c, feature_name, opts),
         "domain": effective(u, c, "domain", "default_domain"),
         "rule": None if rule == "any" else rule,
         "idx": eff_idx(u, c),
@@ -277,12 +300,12 @@ def o_index_ok(u: Dict[str, Any], c: int, links: Optional[List[List[List[str]]]]
     return any(o_prefix(i, s) for l in links for i in l for s in idx)
 
 
-def o_expected(cf: Cfws, u: Dict[str, Any], name: str, feat: Dict[str, Any], api: Optional[List[int]], pc: Any, links: Any, universe_loaded: Sequence[int]) -> Dict[str, Any]:
+def o_expected(cf: Cfws, u: Dict[str, Any], name: str, feat: Dict[str, Any], api: Optional[List[int]], pc: Any, links: Any, universe_loaded: Sequence[int], opts: Optional[Dict[str, Any]] = None) -> Dict[str, Any]:
     adm = []
     for c in universe_loaded:
         if not o_collector(pc, c):
             continue
-        if name not in u["classes"][c]["names"]:
+        if not o_crit(u, c, name, opts):  # matches the feature's name / options
             continue
         if feat["domain"] is not None and effective(u, c, "domain", "default_domain") != feat["domain"]:
             continue
@@ -788,6 +811,219 @@ def suite_e2e(ctx: Ctx, cf: Cfws) -> None:
 
 
 
+def gen_multi_universe(ctx: Ctx, cf: Cfws, uid: int) -> Dict[str, Any]:
+    """2-4 groups serving the same few names; most of them are responsible for one value of the option `variant` (read with
+    Options.get, i.e. from group OR context options), mostly different values; some for every value"""
+    n = ctx.rng.randint(2, 4)
+    names = [f"u{uid}a", f"u{uid}b"]
+    values = ["a", "b", "c"]
+    ctx.rng.shuffle(values)
+    parents: List[Optional[int]] = []
+    classes = []
+    for c in range(n):
+        parents.append(None if c == 0 or ctx.rng.random() < 0.55 else ctx.rng.randrange(c))
+        r = ctx.rng.random()
+        opt: Any = ["variant", values[c]] if c < 3 and r < 0.8 else (None if r < 0.9 else ["variant", ctx.rng.choice(values)])
+        rule: Any = "inherit" if ctx.rng.random() < 0.85 else sorted(set(ctx.rng.sample(cf.avail + cf.unavail[:1], 2)))
+        classes.append({
+            "names": list(names) if ctx.rng.random() < 0.7 else [ctx.rng.choice(names)],
+            "rule": rule,
+            "domain": "inherit" if ctx.rng.random() < 0.85 else ctx.rng.choice(["d1", "d2"]),
+            "idx": None,
+            "opt": opt,
+        })
+    return {"uid": uid, "parents": parents, "classes": classes, "names": names}
+
+
+def gen_request(ctx: Ctx, cf: Cfws, u: Dict[str, Any]) -> List[Dict[str, Any]]:
+    """2-4 pairwise different features; equal names are frequent, differing in group options, in context options only, in
+    the option category, in domain or in the feature-level framework; mostly values some group is responsible for"""
+    k = ctx.rng.randint(2, 4)
+    served = [(nm, c["opt"][1]) for c in u["classes"] for nm in c["names"] if c.get("opt")] or [(u["names"][0], "a")]
+    domains = sorted({c["domain"] for c in u["classes"] if c["domain"] != "inherit"} | {"default_domain"})
+
+    def some_variant(name: str) -> str:
+        vs = [v for nm, v in served if nm == name]
+        return ctx.rng.choice(vs) if vs and ctx.rng.random() < 0.9 else ctx.rng.choice(["a", "b", "c", "zz"])
+
+    feats: List[Dict[str, Any]] = []
+    tries = 0
+    while len(feats) < k and tries < 40:
+        tries += 1
+        if feats and ctx.rng.random() < 0.65:  # sibling of an earlier feature: same name, one setting changed
+            b = ctx.rng.choice(feats)
+            f = {"name": b["name"], "group": dict(b["group"]), "context": dict(b["context"]), "domain": b["domain"], "cfw": b["cfw"]}
+            m = ctx.rng.choice(["context", "context", "context", "group", "group", "move", "domain", "cfw", "other"])
+            if m in ("context", "group"):
+                f[m]["variant"] = some_variant(f["name"])
+                f["group" if m == "context" else "context"].pop("variant", None)
+            elif m == "move":  # same value, other option category
+                for src, dst in (("group", "context"), ("context", "group")):
+                    if "variant" in f[src]:
+                        f[dst]["variant"] = f[src].pop("variant")
+                        break
+            elif m == "domain":
+                f["domain"] = ctx.rng.choice([None] + domains)
+            elif m == "cfw":
+                f["cfw"] = ctx.rng.choice([None] + cf.avail)
+            else:  # a key may live in one category only (Options rejects duplicates)
+                cat = ctx.rng.choice(["group", "context"])
+                f["context" if cat == "group" else "group"].pop("other", None)
+                f[cat]["other"] = ctx.rng.choice([1, 2])
+        else:
+            nm, v = ctx.rng.choice(served)
+            f = {"name": nm, "group": {}, "context": {}, "domain": None, "cfw": None}
+            if ctx.rng.random() < 0.92:
+                f["group" if ctx.rng.random() < 0.5 else "context"]["variant"] = v if ctx.rng.random() < 0.9 else "zz"
+            if ctx.rng.random() < 0.1:
+                f["domain"] = ctx.rng.choice(domains)
+        if f not in feats:
+            feats.append(f)
+    return feats
+
+
+def domain_none_pair(feats: List[Dict[str, Any]]) -> bool:
+    """two features equal in name and all options of which exactly one has a domain"""
+    for a in feats:
+        for b in feats:
+            if a is not b and a["name"] == b["name"] and a["group"] == b["group"] and a["context"] == b["context"] and (a["domain"] is None) != (b["domain"] is None):
+                return True
+    return False
+
+
+def mk_request_feature(cf: Cfws, f: Dict[str, Any]) -> Any:
+    from mloda.core.abstract_plugins.components.feature import Feature
+    from mloda.core.abstract_plugins.components.options import Options
+
+    fwn = cf.classes[f["cfw"]].__name__ if f["cfw"] is not None else None
+    return Feature(f["name"], options=Options(group=dict(f["group"]), context=dict(f["context"])), domain=f["domain"], compute_framework=fwn)
+
+
+def request_orders(ctx: Ctx, k: int) -> List[List[int]]:
+    perms = [list(p) for p in itertools.permutations(range(k))]
+    if len(perms) > 6:
+        perms = [perms[0], perms[-1]] + ctx.rng.sample(perms[1:-1], 4)
+    return perms
+
+
+def suite_e2e_multi(ctx: Ctx, cf: Cfws) -> None:
+    """several features per request - among them features of equal name whose group / context options differ - on groups
+    whose match criteria read an option value: per feature the generated group that computed it, every requested feature
+    yields its table, for every order of the request"""
+    from mloda.user import mloda
+
+    n = ctx.budget(600, 6000)
+    log = os.path.join(ctx.extra["_tmp"], "events_multi.jsonl")
+    os.environ[F.LOG_ENV] = log
+    reqs: List[Dict[str, Any]] = []
+    pend: List[Tuple[Dict[str, Any], Dict[str, Any], List[Dict[str, Any]], Any, List[Tuple[List[int], Dict[str, Any]]]]] = []
+    fixed_done = False
+    for k in range(n):
+        u = gen_multi_universe(ctx, cf, next(_UID))
+        feats = gen_request(ctx, cf, u)
+        if not fixed_done:  # the textbook constellation first: two groups, one per option value, both values requested
+            fixed_done = True
+            nm = u["names"][0]
+            u = {"uid": u["uid"], "names": u["names"], "parents": [None, 0],
+                 "classes": [{"names": [nm], "rule": "inherit", "domain": "inherit", "idx": None, "opt": ["variant", v]} for v in ("a", "b")]}  # fmt: skip
+            feats = [{"name": nm, "group": {}, "context": {"variant": v}, "domain": None, "cfw": None} for v in ("a", "b")]
+        if len(feats) < 2:
+            continue
+        nC = len(u["parents"])
+        api_ids: Any = None if ctx.rng.random() < 0.7 or any(f["cfw"] is not None for f in feats) else [ctx.rng.choice(cf.avail)]
+        pc = {"disabled": [], "enabled": list(range(nC))}
+        runs: List[Tuple[List[int], Dict[str, Any]]] = []
+        for order in request_orders(ctx, len(feats)):
+            classes = build(u, cf, creation_orders(ctx, u["parents"], 2)[-1])
+            names_ = [c.__name__ for c in classes]
+            open(log, "w").close()
+            try:
+                res = mloda.run_all(
+                    [mk_request_feature(cf, feats[i]) for i in order],
+                    compute_frameworks=None if api_ids is None else {cf.classes[i] for i in api_ids},
+                    plugin_collector=mk_collector(pc, classes),
+                )
+                ev = [e for e in read_events(log) if e.get("ev") == "begin"]
+                computed = sorted({(names_.index(e["group"]), nm) for e in ev if e["group"] in names_ for nm in e["features"]})
+                tables = set()
+                for t in res:
+                    for col, vals in F.to_columns(t).items():
+                        for v in set(vals):
+                            tables.add((names_.index(v) if v in names_ else -1, col))
+                out: Dict[str, Any] = {"computed": [list(x) for x in computed], "tables": [list(x) for x in sorted(tables)]}
+            except Exception as e:
+                out = {"err": err_kind(e)}
+            runs.append((order, out))
+            dispose(classes)
+            maybe_collect()
+        W = cf.world(u["parents"])
+        offered = [i for i in range(len(cf.classes)) if not api_ids or i in api_ids]
+        for f in feats:
+            opts = {**f["context"], **f["group"]}
+            reqs.append({"op": "C10.setup", **W, "api": api_ids, "requested": [x["cfw"] for x in feats]})
+            reqs.append({"op": "C10.resolve", **W, "pc": pc, "fgs": [fg_json(u, c, f["name"], opts) for c in range(nC)], "cfws": offered, "feature": {"domain": f["domain"], "cfw": f["cfw"]}, "links": None})
+        pend.append(({"u": u, "request": feats, "api": api_ids}, u, feats, api_ids, runs))
+    outs = ctx.lean.batch(reqs)
+    pos = 0
+    for case, u, feats, api_ids, runs in pend:
+        per_model = []
+        per_exp = []
+        for f in feats:
+            ms, mr = outs[pos], outs[pos + 1]
+            pos += 2
+            per_model.append(ms if "err" in ms else mr["r"])
+            per_exp.append(o_expected(cf, u, f["name"], {"domain": f["domain"], "cfw": f["cfw"]}, api_ids, None, None, range(len(u["parents"])), {**f["context"], **f["group"]}))
+        all_one = all(len(e["pref"]) == 1 for e in per_exp)
+        exp_pairs = sorted({(e["pref"][0], f["name"]) for e, f in zip(per_exp, feats)}) if all_one else None
+        same_name = len({f["name"] for f in feats}) < len(feats)
+        ctx.case("e2e_multi", case, same_name, n_features=len(feats), same_name=same_name, expected="ok" if all_one else "rejected")
+        ctx.evaluations += len(runs) - 1
+        for order, out in runs:
+            ocase = {**case, "order": order}
+            # model: building the request compares every feature with the earlier ones (Features.check_duplicate_feature ->
+            # Feature.__eq__); comparing a Domain with None raises; then features are resolved in request order, the first
+            # failure is raised
+            model: Dict[str, Any] = {}
+            if domain_none_pair(feats):
+                model = {"err": "domainCompare"}
+            for i in ([] if model else order):
+                if "err" in per_model[i]:
+                    model = {"err": per_model[i]["err"]}
+                    break
+            if not model:
+                model = {"computed": [list(x) for x in sorted({(per_model[i]["ok"][0], feats[i]["name"]) for i in order})]}
+            impl_cmp = {"err": out["err"]} if "err" in out else {"computed": out["computed"]}
+            if impl_cmp != model:
+                ctx.disagree("e2e_multi", ocase, impl_cmp, model)
+            # oracle
+            if all_one:
+                assert exp_pairs is not None
+                want = [list(x) for x in exp_pairs]
+                if "err" in out:
+                    cls = None
+                    if out["err"] == "domainCompare" and domain_none_pair(feats):
+                        cls = "same-name-features-domain-vs-none"
+                    for e, f, m in zip(per_exp, feats, per_model):
+                        c_ = finding_class(cf, u, e, {"err": out["err"]}, api_ids, {"domain": f["domain"], "cfw": f["cfw"]}, None)
+                        if c_ is not None and m == {"err": out["err"]}:
+                            cls = c_
+                    ctx.violation("e2e_multi", ocase, f"request rejected with {out['err']} although every feature has exactly one admissible group: {want}", out, want, finding_class=cls)
+                elif out["computed"] != want:
+                    ctx.violation("e2e_multi", ocase, f"(group, feature) computed: {out['computed']}, but each feature's own name/options select {want}", out, want)
+                elif out["tables"] != want:
+                    ctx.violation("e2e_multi", ocase, f"returned tables carry (group, column) {out['tables']}, every requested feature should yield its table: {want}", out, want)
+            else:
+                if "err" not in out:
+                    bad = [f for e, f in zip(per_exp, feats) if len(e["pref"]) != 1]
+                    ctx.violation("e2e_multi", ocase, f"request accepted although feature {bad[0]} has {'no' if not per_exp[feats.index(bad[0])]['pref'] else 'several'} admissible group(s); computed {out['computed']}", out, "rejected")
+                elif str(out["err"]).startswith("other:"):
+                    ctx.violation("e2e_multi", ocase, f"unexpected error {out['err']}", out, "resolution error")
+        # independence of the request order
+        kinds = [("err" if "err" in o else str(o["computed"]) + str(o["tables"])) for _, o in runs]
+        if len(set(kinds)) > 1:
+            ctx.violation("e2e_multi", case, f"outcome depends on the order of the features in the request: {[(o, r) for o, r in runs][:4]}", [r for _, r in runs], "one outcome")
+
+
 def suite_e2e_links_framework(ctx: Ctx, cf: Cfws) -> None:
     """two root groups pinned to different frameworks, one link, a consumer with its own framework rule: the returned table
     must have the data type of a framework admissible for the consumer (the framework sets fixed by set_compute_framework
@@ -833,7 +1069,9 @@ def run(ctx: Ctx) -> None:
         "collector: None, disabled-only, enabled+disabled; API frameworks: None, empty, classes, names, unknown names; feature: name, optional "
         "domain and framework (parameter or option); links: None, empty set, 1-2 links; identify_fn tries 4 dict orders per case, e2e creates "
         "every universe twice in different class-creation orders; non-trivial = at least one candidate survives the filter loop / a framework "
-        "restriction is present"
+        "restriction is present; e2e_multi: 2-4 groups whose criteria read the option `variant` (group or context), requests of 2-4 pairwise "
+        "different features (same name with different group / context options, option category, domain, framework), all request orders "
+        "(<= 6 per case); non-trivial = at least two requested features share a name"
     )
     cf = Cfws()
     tmp = tempfile.mkdtemp(prefix="c10_")
@@ -844,6 +1082,7 @@ def run(ctx: Ctx) -> None:
         suite_function_level(ctx, cf)
         suite_doc_resolve(ctx, cf)
         suite_e2e(ctx, cf)
+        suite_e2e_multi(ctx, cf)
         suite_e2e_links_framework(ctx, cf)
     finally:
         os.environ.pop(F.LOG_ENV, None)
